@@ -389,7 +389,8 @@ Proof.
     + subst j. rewrite gnth_set_at_same. discriminate.
     + rewrite gnth_set_at_other by exact E. destruct I as [_ B]. now apply (B j n).
   - (* OAddIdx *)
-    destruct (gnth (gidx st) (N.to_nat i)) as [z|] eqn:Ez; cbn [fst]; [|auto].
+    destruct (gnth (gidx st) (N.to_nat i)) as [z|] eqn:Ez; cbn [fst];
+      [|destruct RUN_FAST_UNWINDS_ON_ERROR; (split; [try exact I; now apply ginv_with_frames|auto])].
     split; [|auto]. unfold set_idx. apply ginv_clear_snap; [exact I|].
     intros j n Hj Hb. destruct (Nat.eq_dec (N.to_nat i) j) as [E|E].
     + subst j. rewrite gnth_set_at_same. discriminate.
@@ -412,13 +413,18 @@ Proof.
   - (* OReturn *)
     cbn [op_ok] in G. unfold do_return. destruct (frames st) as [|f rest] eqn:Ef; cbn [fst]; [auto|].
     set (cg := match rest with c :: _ => f_gmap c | [] => 0 end).
-    destruct (negb (f_gmap f =? 0) && negb (f_gmap f =? cg) && negb (cg =? 0)) eqn:Cond.
-    + destruct (ginv_sync_current st G I) as [I2 B2].
-      destruct rest as [|c rest']; cbn [fst].
-      * split; [now apply ginv_with_frames|]. intros n Hb. now apply B2.
-      * destruct (ginv_prepare (with_frames (sync_current st) (c :: rest')) (f_fn c) (ginv_with_frames _ _ I2)) as [I3 E3].
+    set (needs := negb (f_gmap f =? 0) && negb (f_gmap f =? cg)).
+    set (bsync := needs && (negb (cg =? 0) || RETURN_SYNCS_WHEN_LEAVING && match rest with [] => true | _ :: _ => false end)).
+    assert (H1 : ginv (if bsync then sync_current st else st) /\
+                 (forall n, bound st n -> bound (if bsync then sync_current st else st) n)).
+    { destruct bsync; [apply ginv_sync_current; auto|auto]. }
+    destruct H1 as [I2 B2]. set (st1 := if bsync then sync_current st else st) in *.
+    destruct rest as [|c rest']; cbn [fst].
+    + split; [now apply ginv_with_frames|]. intros n Hb. now apply B2.
+    + destruct (needs && negb (cg =? 0)).
+      * destruct (ginv_prepare (with_frames st1 (c :: rest')) (f_fn c) (ginv_with_frames _ _ I2)) as [I3 E3].
         split; [exact I3|]. intros n Hb. unfold bound in *. rewrite E3. cbn [gmap with_frames]. now apply B2.
-    + destruct rest as [|c rest']; cbn [fst]; (split; [now apply ginv_with_frames|auto]).
+      * split; [now apply ginv_with_frames|]. intros n Hb. now apply B2.
   - (* OSyncNames *)
     cbn [op_ok] in G. destruct G as (_ & En & ND). apply ginv_sync; auto.
   - (* OMutability *) split; [|auto]. eapply ginv_ext; eauto.
@@ -432,7 +438,7 @@ Proof.
     destruct (ginv_prepare (register st0 L) (l_id L) I1) as [I3 E3].
     split; [now apply ginv_with_frames|]. intros n Hb. unfold bound in *. cbn [gmap with_frames]. rewrite E3.
     change (gmap (register st0 L)) with (gmap st0). rewrite E0. exact Hb.
-  - (* OFail *) auto.
+  - (* OFail *) destruct RUN_FAST_UNWINDS_ON_ERROR; (split; [try exact I; now apply ginv_with_frames|auto]).
   - (* OReadMap *) auto.
   - (* OFrames *) auto.
   - (* OCollect *)
@@ -479,7 +485,7 @@ Proof.
   split; [exact E|]. rewrite E. exact Hb.
 Qed.
 
-(* ---- host calls ---- *)
+(* ---- host calls and the frame stack ---- *)
 Lemma host_call_clean_entry : forall st L c v, frames st = [] -> host_call_result st L c v = HostGets v.
 Proof.
   intros st L c v Hf. unfold host_call_result, host_enter, do_return.
@@ -490,42 +496,179 @@ Proof.
   { unfold prepare. destruct (l_id L =? cur (register st0 L)); [exact Hf0|].
     destruct (names_of (register st0 L) (l_id L)); [exact Hf0|].
     destruct (lookup (l_id L) (snap (register st0 L))); exact Hf0. }
-  rewrite Fp.
-  destruct (negb ((if c then 0 else l_id L) =? 0) && negb ((if c then 0 else l_id L) =? 0) && negb (0 =? 0)); reflexivity.
+  rewrite Fp. reflexivity.
+Qed.
+
+(* frames of the model's operations *)
+Lemma frames_prepare st id : frames (prepare st id) = frames st.
+Proof.
+  unfold prepare. destruct (id =? cur st); [reflexivity|].
+  destruct (names_of st id); [reflexivity|]. destruct (lookup id (snap st)); reflexivity.
+Qed.
+Lemma frames_sync_current st : frames (sync_current st) = frames st.
+Proof. unfold sync_current. destruct (frames st) eqn:E; cbn; exact E. Qed.
+
+Lemma frames_call_enter st L : frames (call_enter st L) = mkFrame (l_id L) (l_id L) false :: frames st.
+Proof.
+  unfold call_enter. cbn [frames with_frames]. f_equal.
+  destruct (negb (l_id L =? 0) && negb (l_id L =? top_gmap (register st L))); [|reflexivity].
+  rewrite frames_prepare. destruct (negb (top_gmap (register st L) =? 0)); [rewrite frames_sync_current|]; reflexivity.
+Qed.
+
+Lemma frames_do_return st : frames (fst (do_return st)) = tl (frames st).
+Proof.
+  unfold do_return. destruct (frames st) as [|f rest] eqn:E; [cbn; now rewrite E|].
+  destruct rest as [|c rest']; cbn [fst frames with_frames tl]; [reflexivity|].
+  match goal with |- frames (if ?b then _ else _) = _ => destruct b end;
+    [rewrite frames_prepare|]; reflexivity.
+Qed.
+
+Lemma frames_host_enter st L c : frames st = [] -> exists e, f_entry e = true /\ frames (host_enter st L c) = [e].
+Proof.
+  intro Hf. unfold host_enter. cbn [frames with_frames]. rewrite frames_prepare. cbn [frames register].
+  assert (E : frames (if HOST_CALL_CLEARS_FRAMES then with_frames st [] else st) = [])
+    by (destruct HOST_CALL_CLEARS_FRAMES; [reflexivity|exact Hf]).
+  rewrite E. eexists. split; [|reflexivity]. reflexivity.
+Qed.
+
+Lemma unwinds : RUN_FAST_UNWINDS_ON_ERROR = true.
+Proof. reflexivity. Qed.
+
+(* a failed run is dropped from the frame stack, whatever it had pushed *)
+Lemma unwind_drops_run : forall above e F, f_entry e = true ->
+  Forall (fun f => f_entry f = false) above -> unwind (above ++ e :: F) = F.
+Proof.
+  induction above as [|a r IH]; intros e F He Ha; cbn.
+  - now rewrite He.
+  - inversion Ha as [|x y Hx Hy]; subst. rewrite Hx. now apply IH.
+Qed.
+
+(* a step (REPL input or host call) as a bracketed operation sequence: the run starts at depth 0
+   with OExecute / OHostCall, calls and returns nest, and the step ends either after the matching
+   Return or with a failure somewhere inside *)
+Fixpoint balanced (depth : nat) (ops : list op) : bool :=
+  match ops with
+  | [] => Nat.eqb depth 0
+  | OExecute _ :: r | OHostCall _ _ :: r => Nat.eqb depth 0 && balanced 1 r
+  | OClearFrames :: r => Nat.eqb depth 0 && balanced 0 r
+  | OCall _ :: r => negb (Nat.eqb depth 0) && balanced (S depth) r
+  | OReturn :: r => negb (Nat.eqb depth 0) && balanced (pred depth) r
+  | OFail :: _ => negb (Nat.eqb depth 0)
+  | OAddIdx _ _ :: r => negb (Nat.eqb depth 0) && balanced depth r
+  | _ :: r => balanced depth r
+  end.
+
+Definition shape (d : nat) (fs : list frame) : Prop :=
+  match d with
+  | O => fs = []
+  | S k => exists above e, fs = above ++ [e] /\ f_entry e = true /\
+                           Forall (fun f => f_entry f = false) above /\ length above = k
+  end.
+
+Lemma run_ops_failed_frames : forall ops st obs fl, frames (r_st (run_ops st ops obs fl true)) = frames st.
+Proof.
+  induction ops as [|o r IH]; intros st obs fl; [reflexivity|].
+  cbn [run_ops]. destruct o; cbn [negb andb]; apply IH.
+Qed.
+
+Lemma shape_unwind d fs : shape (S d) fs -> unwind fs = [].
+Proof. intros (above & e & -> & He & Ha & _). now apply unwind_drops_run. Qed.
+
+Lemma balanced_run : forall ops d st obs fl, shape d (frames st) -> balanced d ops = true ->
+  frames (r_st (run_ops st ops obs fl false)) = [].
+Proof.
+  induction ops as [|o r IH]; intros d st obs fl Sh B.
+  - cbn in *. destruct d; [exact Sh|discriminate].
+  - cbn [run_ops]. cbn [andb negb].
+    destruct o as [|L|i v|i k|i k|v|L| |L|ns|L c| |n| |]; cbn [balanced] in B; cbn [step_op].
+    + (* OClearFrames *) apply andb_true_iff in B as [B0 B]. apply Nat.eqb_eq in B0. subst d. cbn in Sh.
+      apply (IH 0%nat); [|exact B]. destruct REPL_CLEARS_FRAMES_FIRST; cbn; [reflexivity|exact Sh].
+    + (* OExecute *) apply andb_true_iff in B as [B0 B]. apply Nat.eqb_eq in B0. subst d. cbn in Sh.
+      apply (IH 1%nat); [|exact B]. unfold execute. cbn [frames register]. rewrite Sh.
+      exists [], (mkFrame (l_id L) (l_id L) true). repeat split; auto.
+    + apply (IH d); [exact Sh|exact B].
+    + (* OAddIdx *) apply andb_true_iff in B as [B0 B]. destruct d as [|d]; [discriminate|].
+      destruct (gnth (gidx st) (N.to_nat i)).
+      * apply (IH (S d)); [exact Sh|exact B].
+      * cbn [orb]. rewrite run_ops_failed_frames. rewrite unwinds. cbn [frames with_frames]. eapply shape_unwind; eauto.
+    + destruct (gnth (gidx st) (N.to_nat i)); apply (IH d); auto.
+    + apply (IH d); auto.
+    + (* OCall *) apply andb_true_iff in B as [B0 B]. destruct d as [|d]; [discriminate|].
+      apply (IH (S (S d))); [|exact B]. rewrite frames_call_enter.
+      destruct Sh as (above & e & E & He & Ha & Hl). rewrite E.
+      exists (mkFrame (l_id L) (l_id L) false :: above), e. repeat split; auto. cbn. now rewrite Hl.
+    + (* OReturn *) apply andb_true_iff in B as [B0 B]. destruct d as [|d]; [discriminate|].
+      destruct (do_return st) as [st' lft] eqn:Dr.
+      assert (Fr : frames st' = tl (frames st)) by (rewrite <- (frames_do_return st), Dr; reflexivity).
+      apply (IH d); [|exact B]. rewrite Fr.
+      destruct Sh as (above & e & E & He & Ha & Hl). rewrite E.
+      destruct above as [|a above']; cbn in *.
+      * subst d. reflexivity.
+      * inversion Ha; subst. exists above', e. repeat split; auto.
+    + apply (IH d); auto.
+    + apply (IH d); auto.
+    + (* OHostCall *) apply andb_true_iff in B as [B0 B]. apply Nat.eqb_eq in B0. subst d. cbn in Sh.
+      apply (IH 1%nat); [|exact B]. destruct (frames_host_enter st L c Sh) as (e & He & Fe). rewrite Fe.
+      exists [], e. repeat split; auto.
+    + (* OFail *) destruct d as [|d]; [discriminate|]. cbn [orb]. rewrite run_ops_failed_frames, unwinds.
+      cbn [frames with_frames]. eapply shape_unwind; eauto.
+    + apply (IH d); auto.
+    + apply (IH d); auto.
+    + apply (IH d); auto.
+Qed.
+
+(* the state after a session of steps *)
+Fixpoint session_state (st : gstate) (steps : list (list op)) : gstate :=
+  match steps with [] => st | s :: r => session_state (r_st (run_ops st s [] [] false)) r end.
+
+Lemma frames_empty_between_steps : forall steps st, frames st = [] ->
+  forallb (balanced 0) steps = true -> frames (session_state st steps) = [].
+Proof.
+  induction steps as [|s r IH]; intros st Hf B; [exact Hf|].
+  cbn in B. apply andb_true_iff in B as [B1 B2]. cbn [session_state]. apply IH; [|exact B2].
+  apply (balanced_run s 0%nat); [exact Hf|exact B1].
+Qed.
+
+(* in a session -- whatever failed before: inputs, host calls, at any depth -- a host call returns
+   what its callee returns *)
+Lemma host_call_in_session : forall steps L c v, forallb (balanced 0) steps = true ->
+  host_call_result (session_state ginit steps) L c v = HostGets v.
+Proof.
+  intros steps L c v B. apply host_call_clean_entry. now apply frames_empty_between_steps.
 Qed.
 
 Definition L_boom : layout := mkLayout 5 [Some 0; None].
 Definition L_ok : layout := mkLayout 6 [None; Some 1].
 Definition after_failed_host_call : gstate := r_st (run_ops ginit [OHostCall L_boom false; OFail] [] [] false).
 
-Lemma host_call_after_failure : 
-  frames after_failed_host_call = [mkFrame 5 5] /\
-  host_call_result after_failed_host_call L_ok false 42 = HostResumes (mkFrame 5 5).
+(* the history that refuted the property before c94595b: a host call after a failed host call *)
+Lemma host_call_after_failure :
+  frames after_failed_host_call = [] /\
+  host_call_result after_failed_host_call L_ok false 42 = HostGets 42.
 Proof. vm_compute. split; reflexivity. Qed.
 
-Lemma host_call_after_failure_refuted_lemma :
-  exists (st : gstate) (L : layout) (v : Z),
-    st = r_st (run_ops ginit [OHostCall L_boom false; OFail] [] [] false) /\
-    host_call_result st L false v <> HostGets v.
-Proof.
-  exists after_failed_host_call, L_ok, 42%Z. split; [reflexivity|].
-  destruct host_call_after_failure as [_ H]. rewrite H. discriminate.
-Qed.
-
-(* a host call that returns normally after mutating a global leaves the by-name map behind
-   (Return syncs only when there is a caller frame): the next REPL input reloads the old value *)
+(* the history that lost a host call's writes before a3cbd29: two host calls bump a counter
+   10 -> 13 -> 16, the next REPL input reads it *)
 Definition L_bump : layout := mkLayout 7 [None; Some 3].       (* fn bump(x) { counter = counter + x; return counter } *)
 Definition L_top1 : layout := mkLayout 8 [Some 3; Some 4].     (* let mut counter = 10; fn bump ... *)
 Definition L_top2 : layout := mkLayout 9 [Some 3].             (* println(counter) *)
 Definition host_write_session : list (list op) :=
   [ [OClearFrames; OMutability []; OExecute L_top1; OSetIdx 0 10; OSetIdx 1 2000000; OReturn; OSyncNames L_top1];
     [OHostCall L_bump false; OAddIdx 1 3; OPrintIdx 1 0; OReturn];
-    [OHostCall L_bump false; OAddIdx 1 3; OPrintIdx 1 0; OReturn];
+    [OHostCall L_bump true; OAddIdx 1 3; OPrintIdx 1 0; OReturn];
     [OClearFrames; OMutability []; OExecute L_top2; OPrintIdx 0 0; OReturn; OSyncNames L_top2] ].
 
-Lemma host_write_lost :
-  session_obs_noflags host_write_session = [[0; -7]; [0; -7; 13]; [0; -7; 16]; [0; -7; 10]]%Z.
-Proof. vm_compute. reflexivity. Qed.
+Lemma host_write_kept :
+  session_obs_noflags host_write_session = [[0; -7]; [0; -7; 13]; [0; -7; 16]; [0; -7; 16]]%Z /\
+  forallb (balanced 0) host_write_session = true.
+Proof. vm_compute. split; reflexivity. Qed.
+
+Lemma former_counterexamples_fine :
+  (frames after_failed_host_call = [] /\
+   host_call_result after_failed_host_call L_ok false 42 = HostGets 42) /\
+  (session_obs_noflags host_write_session = [[0; -7]; [0; -7; 13]; [0; -7; 16]; [0; -7; 16]]%Z /\
+   forallb (balanced 0) host_write_session = true).
+Proof. exact (conj host_call_after_failure host_write_kept). Qed.
 
 (* non-vacuity: a session inside the entry conditions (two inputs, a cross-layout call that
    mutates a global, a failing input, a later input) *)
